@@ -34,12 +34,7 @@ Proof. unfold inputs_of. apply omap_not_fuel. apply input_at_not_fuel. Qed.
 Lemma is_star_subword_not_fuel i : is_star_subword i <> OutOfFuel.
 Proof. destruct i; discriminate. Qed.
 
-Lemma scan_inputs_not_fuel inputs pp prev : scan_inputs inputs pp prev <> OutOfFuel.
-Proof.
-  revert prev. induction inputs as [|inp rest IH]; intros prev; cbn [scan_inputs]; [discriminate|].
-  destruct pp; [discriminate|].
-  apply obind_not_fuel; [apply is_star_subword_not_fuel|]. intros st _. apply IH.
-Qed.
+
 
 (** *** The measure *)
 
@@ -109,11 +104,8 @@ Section TailOnlyFuel.
       [|split; [discriminate|intros; discriminate]
        |split; [discriminate|intros; discriminate]
        |exfalso; exact (inputs_of_not_fuel _ _ Hin)].
-    destruct (scan_inputs inputs pp None) as [prev| | |] eqn:Hsc; cbn [obind];
-      [|split; [discriminate|intros; discriminate]
-       |split; [discriminate|intros; discriminate]
-       |exfalso; exact (scan_inputs_not_fuel _ _ _ Hsc)].
-    clear Hin Hsc.
+    destruct (first_clash pp inputs) as [e|]; [split; [discriminate|intros; discriminate]|].
+    clear Hin.
     assert (Hle : (unvisited fw visited <= f)%nat) by lia. clear Hlt.
     generalize firstpos. intros ps.
     revert visited Hle. induction ps as [|p rest IHps]; intros visited Hle.
@@ -123,8 +115,16 @@ Section TailOnlyFuel.
       destruct (assocN p fw) as [follow|] eqn:Ha; [|apply IHps; exact Hle].
       assert (Hlt : (unvisited fw (p :: visited) < f)%nat).
       { pose proof (unvisited_mark fw p visited follow Hm Ha). lia. }
-      destruct (IHf follow (opt_or pp prev) (p :: visited) Hlt) as [Hnf Hext].
-      destruct (tail_only r fw f follow (opt_or pp prev) (p :: visited)) as [v1| | |] eqn:Hrec;
+      destruct (input_at r p) as [inp| | |] eqn:Hia; cbn [obind];
+        [|split; [discriminate|intros; discriminate]
+         |split; [discriminate|intros; discriminate]
+         |exfalso; exact (input_at_not_fuel _ _ Hia)].
+      destruct (is_star_subword inp) as [st| | |] eqn:Hst; cbn [obind];
+        [|split; [discriminate|intros; discriminate]
+         |split; [discriminate|intros; discriminate]
+         |exfalso; exact (is_star_subword_not_fuel _ Hst)].
+      destruct (IHf follow (opt_or pp (if st then Some inp else None)) (p :: visited) Hlt) as [Hnf Hext].
+      destruct (tail_only r fw f follow (opt_or pp (if st then Some inp else None)) (p :: visited)) as [v1| | |] eqn:Hrec;
         cbn [obind];
         [|split; [discriminate|intros; discriminate]
          |split; [discriminate|intros; discriminate]
